@@ -158,6 +158,11 @@ def check(prop, tier):
         exit_code = exit_code or 1
     if new_viol and exit_code != 2:
         exit_code = 1
+    if exit_code == 2 and any(json.load(open(pth)).get('fresh_replay_exit') == 1 for pth in replay_paths):
+        # a violation that reproduces from its replay file in a fresh interpreter stands on its own feet: it is reported as such (exit 1) even if
+        # the batch ALSO showed harness trouble (printed above) - e.g. a change that keeps state across the cases of one worker process also trips
+        # the determinism self-check
+        exit_code = 1
 
     ev = write_evidence(mod, B, tier, ndup, detbad, len(new_viol), known_hits, t_start)
     for l in lines:
